@@ -118,6 +118,28 @@ def run_unit(unit, tier='quick', _extra_fns=None):
                 break
         if len(found) > len(_extra_fns or {}):
             return run_unit(unit, tier, _extra_fns=found)
+    # the same for helper METHODS / associated functions (E0599): `impl S { fn helper .. }` in one of the unit's source files
+    missing_m = sorted(set(re.findall(
+        r"error\[E0599\]: no (?:method|associated function or constant|function or associated item) named `(\w+)` found for "
+        r"(?:struct|mutable reference|reference|enum) `&?(?:mut )?(\w+)", p.stderr)))
+    if missing_m and len(_extra_fns or {}) < 4:
+        found = dict(_extra_fns or {})
+        for name, owner in missing_m:
+            key = '%s::%s' % (owner, name)
+            if key in found:
+                continue
+            for it in manifest.items:
+                try:
+                    src = extract.Src(it['file'][len('lib/src/'):], extract.Manifest())
+                    t = src.impl_fn(r'^impl(<[^>]*>)? ' + owner + r'\b[^{\n]*\{', name)
+                except Undecided:
+                    continue
+                t = extract.norm_vis(extract.clean_fn(t))
+                t = re.sub(r'^(\s*)fn ', r'\1pub fn ', t, count=1) if not re.match(r'\s*pub ', t) else t
+                found[key] = 'impl %s {\n%s\n}\n' % (owner, t)
+                break
+        if len(found) > len(_extra_fns or {}):
+            return run_unit(unit, tier, _extra_fns=found)
     if 'verified' not in vr:
         # rustc-level failure of the assembled file: renamed locals, lost splice anchors, dialect limits
         first = errs[0]['text'].split('\n')[0:6] if errs else [p.stderr[-400:]]
